@@ -11,6 +11,10 @@ var suites = map[string]func(tier string) []*families.Case{
 	"f2":  f2Suite,
 	"hist": histSuite,
 	"f11":  func(tier string) []*families.Case { return families.F11(5, 5, []string{"", "s", "is"}) },
+	"f13":  func(tier string) []*families.Case { return families.F13(4, []string{""}, 24) },
+	"f11q": func(tier string) []*families.Case { return families.F11(4, 4, []string{"", "s"}) },
+	"f1q":  func(tier string) []*families.Case { return families.F1(1, 3, 3, []string{"", "i", "s", "is", "n", "nis"}) },
+	"f2d":  func(tier string) []*families.Case { return families.F2D(3, 8, 3, []string{"", "s", "is"}) },
 }
 
 // histSuite: operation histories on one parser instance (C12).
@@ -61,6 +65,8 @@ func behSuite(tier string) []*families.Case {
 		cs = append(cs, families.F2(3, 22, []string{"plain"}, false, 3, []string{"", "s", "is"})...)
 		cs = append(cs, families.F2(3, 8, []string{"plain", "star", "after", "peek", "outer"}, true, 3, []string{"", "s", "is", "ns"})...)
 		cs = append(cs, families.F2(4, 8, []string{"plain"}, false, 3, []string{"", "s"})...)
+		cs = append(cs, families.F2D(3, 12, 3, []string{"", "s", "is", "ns"})...)
+		cs = append(cs, families.F2D(4, 6, 3, []string{"", "s"})...)
 		cs = append(cs, families.F3(4, spec.AllVariants)...)
 		cs = append(cs, families.F4(3, spec.AllVariants)...)
 		cs = append(cs, families.F5(4, ast)...)
@@ -78,16 +84,17 @@ func behSuite(tier string) []*families.Case {
 		h = append(h, families.F7(2, 0, nil)...)
 		cs = append(cs, families.Hostile(h, 4, []string{"", "is", "n"})...)
 	} else {
-		cs = append(cs, families.F1(1, 3, 3, spec.AllVariants)...)
-		cs = append(cs, families.F2(3, 8, []string{"plain"}, false, 3, []string{"", "s", "is"})...)
-		cs = append(cs, families.F3(3, []string{"", "i", "is", "n"})...)
+		cs = append(cs, families.F1(1, 3, 3, []string{"", "i", "s", "is", "n", "nis"})...)
+		cs = append(cs, families.F2(3, 8, []string{"plain"}, false, 3, []string{"", "is"})...)
+		cs = append(cs, families.F2D(3, 8, 3, []string{"", "s"})...)
+		cs = append(cs, families.F3(3, []string{"", "is", "n"})...)
 		cs = append(cs, families.F4(3, []string{"", "s", "n"})...)
 		cs = append(cs, families.F5(4, []string{"", "is"})...)
 		cs = append(cs, families.F6(4, 3, []string{"", "n"})...)
 		cs = append(cs, families.F7(2, 3, []string{"", "is"})...)
 		cs = append(cs, families.F8(3, 3, []string{"", "n"})...)
 		cs = append(cs, families.F10(4, 4, []string{""})...)
-		cs = append(cs, families.F11(4, 5, []string{"", "s"})...)
+		cs = append(cs, families.F11(4, 4, []string{"", "s"})...)
 		cs = append(cs, families.F12(3, []string{"", "i", "n"})...)
 		cs = append(cs, families.F13(4, []string{""}, 24)...)
 		cs = append(cs, families.F14(4, []string{"", "is", "n"})...)
